@@ -17,7 +17,7 @@ CHECKS = {
  "C09": ("exploration", "Code profile (deployments followed by calls and EXTCODE* probes; Prague+: EIP-7702 authorisation lists that set / re-point / clear / set again, repeated and invalid authorities): outcomes, bundle and commit deltas equal to in-order revm.", "§3 C09", PIPE + "; oracle: outcomes + bundle + commit monitor"),
  "C11": ("exploration", "Precompile profile: harness precompiles (bank, observer, static mutator, fault ignorer, halter, state-dependent fatal) registered in Grevm and, through DynParallelPrecompile::to_alloy(), in the stock-revm reference; called directly, nested, via STATICCALL/DELEGATECALL, inside reverting frames, touching accounts other transactions and the beneficiary touch; every facade call is a schedule point; a quarter of the cases on a persistently faulty database (an ignored facade fault must still be fatal). Outcomes (gas charged once), bundle (no residue of discarded attempts), commit deltas and errors equal to the reference.", "§3 C11", PIPE + " + harness precompiles; oracle: outcomes + bundle + commit monitor + error equality"),
  "C13": ("exploration", "Reserve profile (Prague+/Osaka): delegated accounts whose delegate code sends value / endows CREATE / self-destructs, own later transactions at assorted positions, balances at, just above and just below the required suffix sum, credits before debits, inner reverts. Policy on: the simulated parallel run must agree with force_sequential, fallback_sequential(), another worker count and the threshold path (outcomes, bundle, errors), and the fundability invariant must hold (an account that could pay for all its block transactions at block start is never skipped for lack of funds). Policy off: tied to stock revm like C01.", "§3 C13", PIPE + "; oracle: path agreement under schedules + fundability invariant; stock revm when the policy is off"),
- "C10": ("exploration", "After every simulated execute() on a cold cache (1 or 2 consecutive blocks on the same ParallelState, Reverts or PlainState retention) every account, slot and code hash the reference touched is read back through the returned ParallelState and compared with revm State; second-block outcomes and the accumulated bundle are compared too.", "§3 C10", PIPE + "; oracle: read-back equality against revm State (Database interface), two-block bundle equality"),
+ "C10": ("exploration", "(b) production ParallelStateView / ParallelStateCommit (split_for_parallel): 1-3 reader tasks perform cache-filling reads of accounts, slots and code while one committer task applies, in order, a history of real journal output (a generated block executed by stock revm); every read must equal the reference value after c commits for some c between 'commits completed when it started' and 'commits started when it returned'; afterwards every key reads as revm State driven by the same history and the bundle equals revm's. (c) after every simulated execute() on a cold cache (1 or 2 consecutive blocks on the same ParallelState, Reverts or PlainState retention) every account, slot and code hash the reference touched is read back through the returned ParallelState (code must also be served by hash) and compared with revm State; second-block outcomes and the accumulated bundle are compared too.", "§3 C10", PIPE + " + component simulation of the production state views with concurrent readers; oracle: revm State (Database interface) as sequential model: read attribution, read-back equality, bundle equality"),
  "C14": ("exploration", "1-3 caller tasks on one &Scheduler, 1-2 calls each drawn from execute(), parallel_execute(Some(k)), fallback_sequential(), plus purely successive orders; empty and state-changing blocks; parallel and threshold-sequential paths. Exactly one call runs the block (result, outcomes and bundle equal ONE application of the block against stock revm; the commit monitor sees each transaction once), every other call returns the 'can execute only once' error with an in-range txid; a fresh scheduler's take_result_and_state() returns no outcomes, an untouched cache, no database read and an empty bundle.", "§3 C14", PIPE + " with concurrent entry-point callers; oracle: one winner + single application + untouched fresh state"),
  "C15": ("exploration", "(a) production SchedulerContext: 1-3 claimer tasks loop next_validation_idx(limit), 1-2 rewinder tasks call rewind_validation_to; exact-time event log (claims logged at CAS return, rewinds by the production hook right after the fetch_min): no claim at or beyond the limit, every index in [i, min(previous, limit)) of an effective rewind is claimed again afterwards. (b) ExecutionFrontier: publishers in arbitrary order with gaps and duplicates, helping readers: a returned frontier never passes a transaction whose publication has not started, at quiescence it equals the first unexecuted index. (c) real pipeline runs with a trace monitor: at every finality event the validation timestamp exceeds the timestamp of every rewind with index <= tx emitted before. Weak-memory reorderings are sampled separately under Miri (many-seeds).", "§3 C15", "deterministic simulation of the production cursor types on simulator tasks (seeded schedules, freezes at named windows, weak-CAS failures) + pipeline trace invariant + Miri many-seeds sampling of the same files with std atomics"),
  "C16": ("exploration", "Production TxDependency with 2-5 transactions, 1-3 worker tasks and a commit task, driven with the call protocol of scheduler.rs (status under a per-tx lock, next -> execution_task, success -> remove(t,true) with hand-off, conflict -> add(t, unfinalised blocker), error -> key_tx, commit publishes the cursor then commit(t)) from seeded per-transaction scripts; plus an API-level scenario family replacing a blocker while the old one is released (stale reverse edge). Oracles: every transaction finishes in strict mode inside the fair phase (no orphan), claims never exceed re-onboardings + 1, a transaction is never handed out while its current blocker is unresolved and the committed prefix has not reached it; plus strict-mode pipeline runs (a stall = lost re-offer).", "§3 C16", "deterministic simulation of the production dependency graph under the scheduler's call protocol + strict-mode pipeline runs"),
